@@ -408,6 +408,35 @@ fn lvt(type_table: bool, start: u16, length: u16, code_len: usize) -> Vec<u8> {
 	class_with_code(cf, code.len() as u32, &code, &[], &[attr(an, &b)], vec![])
 }
 
+/// a valid method with a label at every bytecode offset it has: `code_len` nops, a LineNumberTable entry for each of the
+/// first `lines` offsets and (optionally) a local variable live over the whole code (its end label is `code_len`)
+fn labels_everywhere(code_len: usize, lines: usize, whole_range_local: bool) -> Vec<u8> {
+	let mut cf = Cf::new();
+	let ln = cf.utf8(b"LineNumberTable");
+	let mut b = Vec::new();
+	b.extend(be16(lines as u16));
+	for pc in 0..lines {
+		b.extend(be16(pc as u16));
+		b.extend(be16((pc % 60_000) as u16 + 1));
+	}
+	let mut attrs = vec![attr(ln, &b)];
+	if whole_range_local {
+		let an = cf.utf8(b"LocalVariableTable");
+		let nm = cf.utf8(b"x");
+		let ds = cf.utf8(b"I");
+		let mut b = Vec::new();
+		b.extend(be16(1));
+		b.extend(be16(0));
+		b.extend(be16(code_len as u16));
+		b.extend(be16(nm));
+		b.extend(be16(ds));
+		b.extend(be16(0));
+		attrs.push(attr(an, &b));
+	}
+	let code = nops(code_len);
+	class_with_code(cf, code.len() as u32, &code, &[], &attrs, vec![])
+}
+
 /// code-level type annotation with a localvar target (0x40 / 0x41) of one entry (start, length)
 fn localvar_target(target: u8, start: u16, length: u16, code_len: usize) -> Vec<u8> {
 	let mut cf = Cf::new();
@@ -737,6 +766,10 @@ pub fn adversaries(thorough: bool) -> Vec<Adversary> {
 	adv(&mut v, "dynamic-self/never-loaded", c, || dynamic_cycle(1, false, false));
 	for n in [10usize, 1000, 10_000, 30_000] {
 		adv(&mut v, format!("dynamic-chain/finite-depth-{n}"), c, move || dynamic_chain(n));
+	}
+	// as many labels as a method can have (every offset 0..code_length, the end included)
+	for (code_len, lines, local) in [(100usize, 100usize, true), (65_535, 65_534, true), (65_535, 65_535, false), (65_535, 65_535, true), (65_534, 65_534, true)] {
+		adv(&mut v, format!("labels-at-every-offset/code_length={code_len},lines={lines},whole-range-local={local}"), c, move || labels_everywhere(code_len, lines, local));
 	}
 	// shared (not nested) dynamic constants: tiny files whose expansion into a tree is exponential
 	for (levels, fan) in [(3usize, 2usize), (12, 2), (24, 2), (40, 2), (200, 2), (16, 3), (10, 8), (5, 200)] {
